@@ -80,7 +80,7 @@ def kind_of(q):
     return None
 
 
-LTYPE = {'i': 'Int', 'w': 'BitVec 64', 'u': 'BitVec 32', 'c': 'BitVec 8', 'm2': 'Int → Int → BitVec 64', 'b': 'Bool', 'm1i': 'Int → Int',
+LTYPE = {'i': 'Int', 'w': 'BitVec 64', 'u': 'BitVec 32', 'c': 'BitVec 8', 'm2': 'Int → Int → BitVec 64', 'b': 'Bool', 'm1i': 'Int → Int', 'm1w': 'Int → BitVec 64',
          'cb': 'Int → Int → Int'}
 WIDTH = {'w': 64, 'u': 32, 'c': 8}
 
@@ -823,6 +823,9 @@ class Fn:
         kk = kind_of(qt(n0)) or ''
         if kk.startswith('p:'):
             # pointer argument: a pointer parameter, possibly offset by a constant
+            if n0.get('kind') == 'DeclRefExpr' and n0['referencedDecl']['name'] in self.ptrs and \
+               self.locals.get(self.ptrs[n0['referencedDecl']['name']][0]) == 'm1w':
+                return V(self.ptrs[n0['referencedDecl']['name']][0])      # a local array of words: its current contents
             if n0.get('kind') == 'DeclRefExpr':
                 nm = n0['referencedDecl']['name']
                 self.free(V(nm), kk)
@@ -1088,6 +1091,8 @@ class Fn:
                 mem, row, idx = self.target(t)
                 if self.locals.get(mem) == 'm1i':
                     return mem, '(CLoop.upd1 %s %s %s)' % (V(mem), idx, rhs)
+                if self.locals.get(mem) == 'm1w':
+                    return mem, '(CLoop.upd1w %s %s %s)' % (V(mem), idx, rhs)
                 return mem, '(CLoop.upd2 %s %s %s %s)' % (V(mem), row, idx, rhs)
             if t['referencedDecl']['name'] in self.ptrs:
                 raise CTransError('%s: re-assignment of pointer %s' % (self.name, t['referencedDecl']['name']))
@@ -1111,6 +1116,8 @@ class Fn:
                     if op not in m:
                         raise CTransError('%s: compound store %s=' % (self.name, op))
                     new = m[op] % (old, rhs)
+                if self.locals.get(mem) == 'm1w':
+                    return mem, '(CLoop.upd1w %s %s %s)' % (V(mem), idx, new)
                 return mem, '(CLoop.upd2 %s %s %s %s)' % (V(mem), row, idx, new)
             nm = t['referencedDecl']['name']
             op = n['opcode'][:-1]
@@ -1196,6 +1203,16 @@ class Fn:
                         xv = self.value(x)
                         vals.append(xv)
                     self.arrays[nm] = (ek, vals)
+                    continue
+                if dk == 'p:w' and not init and re.match(r'.*\[\d+\]$', d['type']['qualType']):
+                    # a local array of words indexed by variables: a 1-dimensional memory (uninitialised in C: reading an
+                    # entry before it is written would be undefined; entries keep their values until overwritten)
+                    mem = 'mem1w_' + nm
+                    self.locals[mem] = 'm1w'
+                    self.ptrs[nm] = (mem, '')
+                    self.ptr_mem[nm] = mem
+                    self.locals[nm] = 'i'
+                    out += '%slet %s : Int → BitVec 64 := (fun _ => (0#64))\n%slet %s : Int := (0 : Int)\n' % (pad, V(mem), pad, V(nm))
                     continue
                 if dk == 'p:w' and init:
                     out += self.decl_pointer(nm, init[0], pad)
@@ -1842,7 +1859,9 @@ class Fn:
                         self.ptr_mem[t_['referencedDecl']['name']] = m_
             if n.get('kind') == 'VarDecl' and kind_of(n['type']['qualType']) == 'p:w':
                 init = [c for c in n.get('inner', []) if isinstance(c, dict) and not c.get('kind', '').endswith('Comment')]
-                if not init:
+                if not init and re.match(r'.*\[\d+\]$', n['type']['qualType']):
+                    self.ptr_mem[n['name']] = 'mem1w_' + n['name']
+                elif not init:
                     self.late_ptrs.add(n['name'])
                 if init:
                     base, _ = self.ptr_source(init[0])
@@ -2441,6 +2460,11 @@ def catalogue(t):
     # --- parity.h
     F('m4ri/mzd.c', 'm4ri_parity64_helper', 'parity64Helper')
     F('m4ri/mzd.c', 'm4ri_parity64', 'parity64')
+    NV = ['(v_C_nrows).toNat', '(v_C_width).toNat', '(64 : Nat)',
+          '(v_C_nrows).toNat', '(v_C_nrows).toNat', '(v_C_width).toNat + 1', '(64 : Nat)', '(v_A_width).toNat', '(64 : Nat)', '(v_A_width).toNat',
+          '(v_C_nrows).toNat', '(v_C_width).toNat + 1', '(64 : Nat)', '(v_A_width).toNat', '(64 : Nat)', '(v_A_width).toNat']
+    F('m4ri/mzd.c', '_mzd_mul_naive', 'mzdMulNaive', retparam='C', nosse=True, fuels=NV,
+      doc='C (+)= A * B^T given the transposed B: 64 AND-accumulated words per destination word, parity network; blocked and remainder row loops')
     # --- strassen.c
     F('m4ri/strassen.c', 'closer', 'closer')
     sl = dict(start='mult', end='nnn', outs=['mmm', 'kkk', 'nnn'], predeclared={'mmm': 'i', 'kkk': 'i', 'nnn': 'i'})
@@ -2562,6 +2586,8 @@ def copyWords (m : Int → Int → BitVec 64) (r o : Int) (src : Int → BitVec 
   fun r' w' => if r' = r ∧ o ≤ w' ∧ w' < o + n then src (w' - o) else m r' w'
 /-- store into a 1-dimensional integer array -/
 def upd1 (m : Int → Int) (i v : Int) : Int → Int := fun i' => if i' = i then v else m i'
+/-- a store into a local array of words -/
+def upd1w (m : Int → BitVec 64) (i : Int) (v : BitVec 64) : Int → BitVec 64 := fun i' => if i' = i then v else m i'
 /-- a constant local array -/
 def tab {α : Type} (l : List α) (d : α) (i : Int) : α := if i < 0 then d else l.getD i.toNat d
 end M4ri.Gen.CLoop
